@@ -21,31 +21,48 @@ PREFIXES = {
     "view": ["xv = x[:2]", "L = xv * k[:2]", "z = x * c2"],
     "sumL": ["L = (x * k).sum()", "z = x[1:] * c2"],
     "inter": ["m = x * k", "L = m * m", "z = m * c2"],
+    # the OTHER graph goes through a view of the shared tensor; shared tensor that is a constant (no staleness marker at all)
+    "zview": ["L = x * k", "xv = x[:2]", "z = xv * c2"],
+    "constshared": ["L = x * kc", "kv = kc[:2]", "z = k[:2] * kv"],
 }
+# tensors upstream of L (a view that only the OTHER graph went through is not: its gradient legitimately reads None)
+CHECK_NAMES = {"zview": ("x", "k"), "constshared": ("x",)}
 EVENTS = ["z.backward()", "z.clear_graph()", "x[...] = c1", "x[:1] = c1", "xv[...] = c1", "x *= c2", "w = x * c2", "w = k * c2",
-          "x.null_grad()", "w = x[::-1]", "w.backward()", "m[...] = c1", "w = m * c2", "k[1:] = c1"]
+          "x.null_grad()", "w = x[::-1]", "w.backward()", "m[...] = c1", "w = m * c2", "k[1:] = c1", "rawwrite(x)", "rawwrite(k)", "rawwrite(m)", "rawwrite(xv)", "rawwrite(kc)"]
 EVENTS_Q = ["z.backward()", "z.clear_graph()", "x[...] = c1", "x[:1] = c1", "xv[...] = c1", "w = x * c2", "x.null_grad()", "w.backward()",
-            "m[...] = c1", "w = m * c2"]
+            "m[...] = c1", "w = m * c2", "rawwrite(x)", "rawwrite(k)", "rawwrite(m)", "rawwrite(kc)"]
 
 
 class Setup:
-    ALL_NAMES = ("x", "k", "xv", "m", "w", "z")
-    INIT_NAMES = ("x", "k")
+    ALL_NAMES = ("x", "k", "kc", "xv", "kv", "m", "w", "z")
+    INIT_NAMES = ("x", "k", "kc")
 
     def __init__(self, mg):
         self.mg = mg
         self.x = symarr("x", (3,))
         self.k = symarr("k", (3,))
+        self.kc = symarr("kc", (3,))
         self.c1 = symarr("c1", ())
         self.c2 = symarr("c2", ())
 
     def env_mg(self):
         mg = self.mg
-        return {"mg": mg, "np": np, "x": mg.Tensor(self.x), "k": mg.Tensor(self.k), "c1": np.array(self.c1, dtype=object),
-                "c2": np.array(self.c2, dtype=object)}
+        count = [0]
+
+        def rawwrite(t):
+            """the caller tries to overwrite the tensor's memory behind MyGrad's back (fresh symbols the twin never sees);
+            refused (ValueError: read-only) while the memory guard holds the array"""
+            count[0] += 1
+            try:
+                t.data[...] = symarr("raw%d" % count[0], t.shape)
+            except ValueError:
+                pass
+
+        return {"mg": mg, "np": np, "x": mg.Tensor(self.x), "k": mg.Tensor(self.k), "kc": mg.Tensor(self.kc, constant=True),
+                "c1": np.array(self.c1, dtype=object), "c2": np.array(self.c2, dtype=object), "rawwrite": rawwrite}
 
     def env_np(self):
-        return {"np": np, "x": np.array(self.x, dtype=object), "k": np.array(self.k, dtype=object), "c1": np.array(self.c1, dtype=object),
+        return {"np": np, "x": np.array(self.x, dtype=object), "k": np.array(self.k, dtype=object), "kc": np.array(self.kc, dtype=object), "c1": np.array(self.c1, dtype=object),
                 "c2": np.array(self.c2, dtype=object)}
 
 
@@ -71,6 +88,11 @@ def histories(tier):
                             needs.add(nm)
                     if e.startswith("w = "):
                         needs.discard("w")
+                    if e.startswith("rawwrite("):
+                        needs = {e[9:-1]} - {"x", "k", "kc"}
+                        if "kc" in e and "kc" not in " ".join(prefix):
+                            ok = False
+                            break
                     if not needs <= names:
                         ok = False
                         break
@@ -99,10 +121,13 @@ import numpy as np
 import mygrad as mg
 from mygrad.errors import InvalidBackprop
 LINES = %r
-INIT = {"x": np.array([1.5, -2.0, 0.75]), "k": np.array([0.5, 3.0, -1.25])}
+INIT = {"x": np.array([1.5, -2.0, 0.75]), "k": np.array([0.5, 3.0, -1.25]), "kc": np.array([0.25, -1.5, 2.0])}
 CONST = {"c1": np.array(2.5), "c2": np.array(1.5)}
-NAMES = ("x", "k", "xv", "m", "w", "z")
-def graph_only(l): return any(s in l for s in (".backward(", ".clear_graph(", ".null_grad("))
+NAMES = ("x", "k", "kc", "xv", "kv", "m", "w", "z")
+def graph_only(l): return any(s in l for s in (".backward(", ".clear_graph(", ".null_grad(", "rawwrite("))
+def rawwrite(t):
+    try: t.data[...] = 123.0 + np.arange(t.size).reshape(t.shape)
+    except ValueError: pass
 def tgt(line):
     h = line.split("=")[0].strip()
     for s in ("[", ".", " "): h = h.split(s)[0]
@@ -117,7 +142,7 @@ def twin(cut=None):
         if cut is not None and cut[1] == i: A[cut[0]][...] = cut[2].reshape(A[cut[0]].shape)
         hist.append(({n: A[n].copy() for n in NAMES if n in A}, {n: bool(ip and not graph_only(ln) and np.shares_memory(A[tgt(ln)], A[n])) for n in NAMES if n in A}))
     return A, hist
-T = {"mg": mg, "np": np}; T.update({k: mg.Tensor(v) for k, v in INIT.items()}); T.update(CONST)
+T = {"mg": mg, "np": np, "rawwrite": rawwrite}; T.update({k: mg.Tensor(v, constant=(k == "kc")) for k, v in INIT.items()}); T.update(CONST)
 bad = []
 outcome = "ok"
 try:
@@ -173,7 +198,7 @@ def run_case(spec, tier):
         res["programs"] += 1
         try:
             r = C05.run_program(mg, None, lines, res, make_setup=lambda: Setup(mg), invalid_backprop_ok=True,
-                                check_names=("x", "k", "xv", "m"))
+                                check_names=CHECK_NAMES.get(pname, ("x", "k", "xv", "m")))
         except eng_mod.Budget as e:
             r = ("unknown", str(e))
         if r is None:
